@@ -175,10 +175,20 @@ func c21RunConn(c c21ConnCase) (V, Verdict) {
 	start := make(chan struct{})
 	returned := make([]chan struct{}, len(c.Closers))
 	saw := make([]int32, len(c.Closers))
+	var panicMu sync.Mutex
+	var panics []string
 	for i, k := range c.Closers {
 		i, k := i, k
 		returned[i] = make(chan struct{})
 		go func() {
+			defer func() {
+				if p := recover(); p != nil {
+					panicMu.Lock()
+					panics = append(panics, fmt.Sprint(p))
+					panicMu.Unlock()
+					close(returned[i])
+				}
+			}()
 			<-start
 			if c.Stagger > 0 {
 				time.Sleep(time.Duration(i*c.Stagger) * time.Microsecond)
@@ -218,6 +228,11 @@ func c21RunConn(c c21ConnCase) (V, Verdict) {
 			}
 		}
 	}
+	panicMu.Lock()
+	if len(panics) > 0 {
+		fail("close-panics", "panic in a Close/GracefulClose caller: "+panics[0])
+	}
+	panicMu.Unlock()
 	if !allBack {
 		fail("closer-never-returns", fmt.Sprintf("a Close/GracefulClose caller of %v at stage %d did not return within 30 s", c.Closers, c.Stage))
 	}
